@@ -71,7 +71,10 @@ func errClass(err error) string {
 	if err == nil {
 		return ""
 	}
-	if errors.Is(err, io.EOF) {
+	// io.Reader: "Read must return EOF itself, not an error wrapping EOF, because callers will
+	// test for EOF using ==". An error that merely wraps EOF ("failed to read socks5 response
+	// ...: EOF") is an error report, not a clean end of stream.
+	if err == io.EOF {
 		return "eof"
 	}
 	return "err:" + err.Error()
@@ -462,7 +465,7 @@ func (rt *sessRT) maxWritten(rd int) int64 {
 func (rt *sessRT) checkEnd(dr *dirRT, rd int, err error, readerIsClient bool) {
 	w := rt.w
 	w.addCheck(1)
-	if !errors.Is(err, io.EOF) {
+	if err != io.EOF {
 		return
 	}
 	// A clean EOF. Who closed?
